@@ -5,6 +5,9 @@
 #include <stddef.h>
 #include <stdlib.h>
 #include <string.h>
+#ifdef __cplusplus
+#include <algorithm>   // the CUDA headers make std::min / std::max available to host code
+#endif
 struct verif_dim3 { unsigned x, y, z; };
 extern verif_dim3 blockIdx, blockDim, threadIdx, gridDim;
 typedef int cudaStream_t;
@@ -16,6 +19,11 @@ cudaError_t cudaFree(void *p);
 cudaError_t cudaMemcpyAsync(void *dst, const void *src, size_t n, cudaMemcpyKind kind, cudaStream_t s);
 cudaError_t cudaMemcpy(void *dst, const void *src, size_t n, cudaMemcpyKind kind);
 cudaError_t cudaDeviceSynchronize();
+cudaError_t cudaMallocHost(void **p, size_t n);
+cudaError_t cudaFreeHost(void *p);
+cudaError_t cudaStreamCreate(cudaStream_t *s);
+cudaError_t cudaStreamDestroy(cudaStream_t s);
+extern int verif_live_streams, verif_live_handles, verif_live_hostbufs;
 cudaError_t cudaGetLastError();
 const char *cudaGetErrorName(cudaError_t e);
 // launch emulation: every (block, thread) pair of the launch runs the kernel sequentially
